@@ -122,6 +122,12 @@ type Engine struct {
 
 func scratchRoot() string {
 	if v := os.Getenv("VERIF_SCRATCH"); v != "" {
+		for _, a := range os.Args {
+			if strings.HasPrefix(a, "-test.fuzzworker") {
+				// the workers of a native fuzzing run share the environment: one directory each
+				return filepath.Join(v, fmt.Sprintf("w%d", os.Getpid()))
+			}
+		}
 		return v
 	}
 	return filepath.Join("/root/verif-scratch", fmt.Sprintf("adhoc-%d", os.Getpid()))
@@ -543,6 +549,18 @@ func (e *Engine) apply(i int, op Op) *Fail {
 			return fail("unmap|error", err.Error(), "C01")
 		}
 		m.Live.Unmap(off, length)
+		// UNMAP reclaims the blocks wherever their newest copy lives above the latest
+		// user-created snapshot - also inside automatic snapshots, whether or not
+		// reclamation of overwritten blocks is switched on: their images promise
+		// nothing for those blocks from here on (found by FuzzC01Ops: unmap, then a
+		// revert to an automatic snapshot)
+		for _, d := range m.Chain[1:] {
+			sn := m.Snaps[d]
+			if sn == nil || sn.User {
+				break
+			}
+			sn.Img.Unmap(off, length)
+		}
 		e.Labels["unmap"]++
 	case "resize":
 		if !m.Open {
